@@ -196,6 +196,14 @@ func (d *dbT) genStmt(t *rapid.T) *stmtT {
 		if s.skip != "" {
 			return s
 		}
+		if contains(q.ops(), "semijoin") {
+			for name := range q.tables() {
+				if hasSet(d.table(name).keys, []string{}) {
+					s.skip = "source with semijoin over an empty-key table (class excluded under C22)"
+					return s
+				}
+			}
+		}
 		if shadowSumUnderWhere(q, nil, false) || hasShadowSummarize(q) || wholeRowFlips(q, false) || wholeRowInside(q, true) || orWithEmptyTerm(q) {
 			s.skip = "source query in a class excluded under C22"
 			return s
@@ -410,6 +418,9 @@ func TestC24(t *testing.T) {
 			}
 			if known == "" && s.q != nil && orWithEmptyTerm(s.q) {
 				known = "or-with-empty-range"
+			}
+			if known == "" && s.q != nil && inWithEmpty(s.q) {
+				known = "where-in-empty-duplicates"
 			}
 			if known != "" {
 				if e, ok := kf.Known("C24", known); ok {
